@@ -126,7 +126,8 @@ def run(ctx):
             ctx.ok("R12.1", key, sample={"accessor": f.fq, "effect": "ADDS-EMPTY", "witness": path})
             continue
         doc = documented_creating(prog, E, f)
-        if (f.module.name, f.qualname) in NAMED_CREATING:
+        if (f.module.name, f.qualname) in NAMED_CREATING or (f.qualname in {q_ for _m, q_ in NAMED_CREATING} and sum(
+                1 for g_ in acc if g_.qualname == f.qualname) == 1):      # named by the statement; the module it lives in is not part of the name
             ctx.ok("R12.1", key, sample={"accessor": f.fq, "effect": "WRITES", "allowed": "named by the statement as a creating accessor",
                                          "witness": path[:3]})
             continue
